@@ -42,10 +42,26 @@ def check_clock(prog: Program, rep: Report) -> None:
                             other = v.right if self_attr(v.left) == "_event_time" else v.left
                             incs.append((n, v.op, other))
                             new_clock.add(norm(v))
+                        else:
+                            # the clock is rebuilt rather than advanced: from a float that this method accumulates (the absolute
+                            # time is then rounded at its own size at every step and the k-th sampling time drifts from
+                            # k * interval), or in a way that is not followed (undecided)
+                            floats = {self_attr(a.target) for a in ast.walk(ref.fn) if isinstance(a, ast.AugAssign) and self_attr(a.target)}
+                            floats |= {self_attr(a.targets[0]) for a in ast.walk(ref.fn) if isinstance(a, ast.Assign) and self_attr(a.targets[0])
+                                       and isinstance(a.value, ast.BinOp) and any(self_attr(x) == self_attr(a.targets[0]) for x in ast.walk(a.value))}
+                            from_float = isinstance(v, ast.Call) and norm(v.func).endswith("from_float") \
+                                and any(self_attr(x) in floats for x in ast.walk(v) if isinstance(x, ast.Attribute))
+                            incs.append((n, None, v))
+                            rep.ob("R17.4-interval-step", False if from_float else None, Loc(ref.file, n.lineno, ref.qual), n,
+                                   "the clock of a fixed-interval handler must advance by `+ self.<interval>` through Time.__add__; here it is "
+                                   "rebuilt from a float that accumulates the absolute time, so every step rounds at the size of the time "
+                                   "reached and the k-th sample is no longer at k * interval")
                 loc = Loc(ref.file, ref.fn.lineno, ref.qual)
                 rep.ob("R17.4-one-step", len(incs) == 1, loc, f"{ref.qual}: {len(incs)} clock advance(s)",
                        "a fixed-interval handler must advance its clock exactly once per candidate")
                 for stmt, op, inc in incs:
+                    if op is None:
+                        continue
                     attr = self_attr(inc)
                     ok = isinstance(op, ast.Add) and attr is not None
                     why = "the clock must advance by `+ self.<interval>` through Time.__add__ (no scaling, no float sum)"
